@@ -125,6 +125,26 @@ def handle (j : Json) : Except String Json := do
   | "parse" =>
     let t ← strF j "text"
     pure (encOutcome (Build.parse (← boolF j "allow_properties") t))
+  | "entry" =>
+    let r ← (← j.getObjVal? "route").getStr?
+    let k ← (← j.getObjVal? "kind").getStr?
+    let route ← match r with
+      | "ctor" => pure Entry.Route.ctor | "parse" => pure Entry.Route.parseStatic
+      | "instance_parse" => pure Entry.Route.instanceParse | "parse_file" => pure Entry.Route.parseFile
+      | _ => throw s!"route {r}"
+    let kind ← match k with
+      | "str" => pure Entry.SourceKind.str | "path" => pure Entry.SourceKind.path
+      | "file" => pure Entry.SourceKind.textFile | "path_string" => pure Entry.SourceKind.pathString
+      | "other" => pure Entry.SourceKind.other | _ => throw s!"kind {k}"
+    let t ← strF j "text"
+    let o : Entry.Opts := { allowProps := ← boolF j "allow_properties" }
+    match Entry.entry route kind t o with
+    | .typeError => pure (Json.mkObj [("err", "TypeError")])
+    | .notARoute => pure (Json.mkObj [("err", "notARoute")])
+    | .parser _ o' =>
+      match Entry.run route kind t o with
+      | some out => pure (Json.mkObj [("outcome", encOutcome out), ("allow_properties", .bool o'.allowProps)])
+      | none => pure (Json.mkObj [("err", "notARoute")])
   | "hist" => Cont.runHist j
   | "dispatch" => dispatchOp j
   | "reorder" =>
